@@ -91,7 +91,7 @@ def check(ctx):
     kf = next((n for n in ast.walk(dk) if isinstance(n, ast.FunctionDef) and n.name == "keys"), None)
     if kf is None:
         raise AnchorMissing("Array.__dask_keys__.keys")
-    ok = bool(find("result = [(name,) + args + (i,) for i in range(numblocks[ind])]", kf)) and bool(find("result = [keys(*args + (i,)) for i in range(numblocks[ind])]", kf)) and any(unparse(n.test) == "ind + 1 == len(numblocks)" for n in walk_no_nested(kf) if isinstance(n, ast.If)) and bool(find("ind = len(args)", kf))
+    ok = bool(find("result = [(name,) + args + (i,) for i in range(numblocks[ind])]", kf)) and bool(find("result = [keys(*args + (i,)) for i in range(numblocks[ind])]", kf)) and any(eqv(n.test, "ind + 1 == len(numblocks)") for n in walk_no_nested(kf) if isinstance(n, ast.If)) and bool(find("ind = len(args)", kf))
     ctx.ob("ALG.keys", kf, "keys are nested axis by axis, the last axis innermost: (name, *outer, i)", ok)
     ok = bool(find("(name, chunks, numblocks) = (self.name, self.chunks, self.numblocks)", dk)) or bool(find("name, chunks, numblocks = (self.name, self.chunks, self.numblocks)", dk))
     ctx.ob("ALG.keys.source", dk, "keys are built from this array's name and numblocks", ok)
@@ -111,14 +111,14 @@ def check(ctx):
     ctx.ob("ALG.fuse-slice.stop", fs, "fuse_slice tests the stops with `is (not) None`", ok, "" if ok else "a stop of 0 is treated as missing: x[2:][:0] is fused into x[2:] and computes more rows than the lazy shape says")
     # ---------------- per-block dtype of sequential scans (shared with C22): the carry blocks have the scan dtype
     red_ = model.module("dask/array/reductions.py").func("cumreduction")
-    fl_ = [t for t in ast.walk(red_) if isinstance(t, ast.Tuple) and len(t.elts) == 4 and unparse(t.elts[1]) == "np.full_like"]
-    ok = len(fl_) == 1 and unparse(fl_[0].elts[2]) == "(x._meta, ident, m.dtype)"
+    fl_ = [t for t in ast.walk(red_) if isinstance(t, ast.Tuple) and len(t.elts) == 4 and eqv(t.elts[1], "np.full_like")]
+    ok = len(fl_) == 1 and eqv(fl_[0].elts[2], "(x._meta, ident, m.dtype)")
     ctx.ob("ALG.scan.carry-dtype", red_, "cumreduction: the carry blocks are created with m.dtype (the declared dtype of the result)", ok, "" if ok else "blocks after the first take the input dtype while the array declares the requested dtype")
     # ---------------- blockwise without alignment: on a tie in the number of blocks, length-1 blocks broadcast
     for rel, q in (("dask/array/blockwise.py", "blockwise"), ("dask/array/_array_expr/_blockwise.py", "Blockwise.chunks")):
         f = ctx.model.module(rel).func(q)
-        picks = [n for n in ast.walk(f) if isinstance(n, ast.If) and unparse(n.test) == "i not in chunkss or len(c) > len(chunkss[i])"]
-        ok = len(picks) == 1 and len(picks[0].orelse) == 1 and isinstance(picks[0].orelse[0], ast.If) and unparse(picks[0].orelse[0].test) == "len(c) == len(chunkss[i])"
+        picks = [n for n in ast.walk(f) if isinstance(n, ast.If) and eqv(n.test, "i not in chunkss or len(c) > len(chunkss[i])")]
+        ok = len(picks) == 1 and len(picks[0].orelse) == 1 and isinstance(picks[0].orelse[0], ast.If) and eqv(picks[0].orelse[0].test, "len(c) == len(chunkss[i])")
         if ok:
             ok = bool(find("chunkss[i] = tuple((b if a == 1 else a for (a, b) in zip(chunkss[i], c)))", picks[0].orelse[0]))
         ctx.ob("ALG.blockwise.unaligned-chunks", f, f"{q}: most blocks win; on a tie, blocks of length 1 take the other input's block lengths", ok, "" if ok else "on a tie the first input wins even when its blocks have length 1 and broadcast: map_blocks(np.add, x(1,6), y(4,6)) declares shape (1, 6) but computes (4, 6)")
